@@ -28,6 +28,14 @@ def run(c):
     import r9
     c.r9("C19")
     F = c.F
+    # --- the connection stream is consumed only by exact-length reads: nothing reads ahead of the announced frame (a buffered reader or a
+    # short `read` scoped to one message would swallow bytes of the next frame when two frames arrive in one segment)
+    c.r3("stream-exact-readers", "re:^std::io::Read::read_exact$", {M + "read_header", M + "read_body", M + "read_discard", CO + "Codec::read_inner"},
+         floor_sites=4, crates={"grin_p2p"}, desc="grin_p2p reads the peer stream only through read_exact in read_header / read_body / read_discard / Codec::read_inner")
+    c.r3("stream-no-readahead", "re:^std::io::(buffered::bufreader::)?BufReader(<.*>)?::(new|with_capacity)$|^std::io::Read::(read_to_end|read_to_string|read_buf|read_vectored|bytes|chain|take)$|^std::io::BufRead::",
+         set(), crates={"grin_p2p"}, desc="grin_p2p never wraps a stream in a read-ahead buffer and never reads an unannounced amount from it")
+    c.r3("stream-short-read-only-files", "re:^std::io::Read::read$", {M + "write_message"}, floor_sites=1, crates={"grin_p2p"},
+         desc="the only short `Read::read` in grin_p2p is the attachment file reader of write_message")
     ty = F.adts.get(M + "Type")
     if not ty or len(ty["variants"]) < 29:
         return c.lost("type-table", "R7", None, "message type table", "msg::Type not found or has fewer than 29 variants")
